@@ -741,11 +741,8 @@ func (c *Ctx) checkNoCursorInNode() {
 					continue
 				}
 				nstores++
-				vt := val.Type()
-				if mi, ok := val.(*ssa.MakeInterface); ok {
-					vt = mi.X.Type()
-				}
-				if core.IsNilConst(val) || !isCursorT(vt) {
+				carries, vt := c.valueCarriesCursor(val, false)
+				if !carries {
 					continue
 				}
 				nviol++
